@@ -14,11 +14,12 @@ TECHNIQUE = ('runtime monitoring with fault injection: a file-object proxy insta
              'k-th call; directory census before and after')
 RULE = ('for each built-in generator (textX->dot, textX->PlantUML, any->dot) and each model of a small corpus (grammar files of '
         'different sizes, models with 1-30 objects): a clean run counts the N write/flush/close/rename calls on the target; '
-        'then EVERY k in 1..N is injected (exhaustive), with the target absent, and with an older target present plus '
-        'overwrite. Oracle: after the failure the output directory holds no new file (target absent; with overwrite the old '
+        'then EVERY k in 1..N is injected (exhaustive) under two models of the file object (write-through; buffered: text '
+        'written so far is lost when the flush inside flush()/close() fails, as on a full disk), with the target absent, and '
+        'with an older target present plus overwrite. Oracle: after the failure the output directory holds no new file (target absent; with overwrite the old '
         'or the complete new content), and a following run without overwrite produces the complete file. distinct = '
         '(generator, model, k, pre-existing target); non-trivial = k > 1 (something was already written)')
-REQUIRED = {'fault_points_injected': 150, 'generators': 3, 'clean_runs': 9, 'with_existing_target': 40, 'followup_runs': 100}
+REQUIRED = {'fault_points_injected': 150, 'buffered_mode_faults': 75, 'write_through_faults': 75, 'generators': 3, 'clean_runs': 9, 'with_existing_target': 40, 'followup_runs': 100}
 
 GRAMMARS = [
     "Model: 'm' x=INT;",
@@ -45,22 +46,40 @@ class Proxy:
             st['fired'] = what
             raise OSError(28, 'injected failure at %s #%d' % (what, st['calls']))
 
+    # Two models of the file object. 'through': every write reaches the file at once and only the failing call is lost.
+    # 'buffered' (what a real text file does for outputs below the buffer size): written text sits in a buffer until
+    # flush()/close(); when that flush fails (disk full, quota, EFBIG) the buffered text is lost and the file stays short.
     def write(self, s):
         self._tick('write')
+        if self._st.get('mode') == 'buffered':
+            self.__dict__.setdefault('_buf', []).append(s)
+            return len(s)
         return self._f.write(s)
 
     def writelines(self, l):
-        self._tick('write')
-        return self._f.writelines(l)
+        for x in l:
+            self.write(x)
+
+    def _drain(self):
+        buf = self.__dict__.get('_buf')
+        if buf:
+            self._f.write(''.join(buf))
+            del buf[:]
 
     def flush(self):
-        self._tick('flush')
+        try:
+            self._tick('flush')
+        except OSError:
+            self.__dict__['_buf'] = []
+            raise
+        self._drain()
         return self._f.flush()
 
     def close(self):
         if not self._f.closed:
             try:
                 self._tick('close')
+                self._drain()
             finally:
                 self._f.close()
 
@@ -75,7 +94,7 @@ class Proxy:
         return getattr(self._f, n)
 
 
-STATE = {'calls': 0, 'fail_at': None, 'log': [], 'root': None, 'fired': None}
+STATE = {'calls': 0, 'fail_at': None, 'log': [], 'root': None, 'fired': None, 'mode': 'through'}
 _installed = [False]
 
 
@@ -164,8 +183,8 @@ def run_case(ctx, ci, rep_base):
             base = 'model%d.dot' % mi
         tpath = os.path.join(out, base)
 
-        def run(fail_at, overwrite):
-            STATE.update(calls=0, fail_at=fail_at, log=[], root=os.path.abspath(out), fired=None)
+        def run(fail_at, overwrite, mode='through'):
+            STATE.update(calls=0, fail_at=fail_at, log=[], root=os.path.abspath(out), fired=None, mode=mode)
             try:
                 gen(mm, model, out, overwrite, False)
                 return None
@@ -183,9 +202,9 @@ def run_case(ctx, ci, rep_base):
         n = STATE['calls']
         ctx.note('calls_in_clean_run_%s_%s_%s' % (lang, target, gi if mi is None else 'm%d' % mi), n)
         os.remove(tpath)
-        for k in range(1, n + 1):
+        for k, mode in [(k, mode) for k in range(1, n + 1) for mode in ('through', 'buffered')]:
             for existing in (False, True):
-                if existing and k % 2 == 0:
+                if existing and k % 2 == 0 and k < n - 3:
                     continue
                 for fn in os.listdir(out):
                     os.remove(os.path.join(out, fn))
@@ -194,12 +213,13 @@ def run_case(ctx, ci, rep_base):
                     with open(tpath, 'w') as f:
                         f.write(old)
                     ctx.count('with_existing_target')
-                err = run(k, existing)
+                err = run(k, existing, mode)
+                ctx.count('buffered_mode_faults' if mode == 'buffered' else 'write_through_faults')
                 ctx.count('fault_points_injected')
                 rep = dict(rep_base, ci=ci)
                 wit = {'generator': '%s->%s' % (lang, target), 'input': base, 'fail_at_call': k, 'of_calls': n, 'call_kind': STATE['fired'],
-                       'target_existed_before': existing, 'directory_after': sorted(os.listdir(out))}
-                ctx.case((lang, target, gi, mi, k, existing), k > 1, wit if ctx.evaluations < 3 else None)
+                       'target_existed_before': existing, 'file_model': mode, 'directory_after': sorted(os.listdir(out))}
+                ctx.case((lang, target, gi, mi, k, existing, mode), k > 1, wit if ctx.evaluations < 3 else None)
                 if err is None:
                     ctx.violation(None, 'the injected failure at call %d/%d was swallowed' % (k, n), wit, rep)
                     continue
